@@ -47,6 +47,11 @@ CLAIMED = {
          'Packages signed with a freshly generated key are loaded and verified by the real code under every single-byte substitution (2 values) of debian-binary, control, data and the signature member, every insertion position of decoy control.*/data.* members (other encoding, same name, attacker content), every signed-member / signature-member rename, the full role-present x role-asked x keyring matrix and 33 valid signatures over wrong byte strings. Oracle: Load and CheckDebsig both succeeding implies signer in keyring, role present, signature covering exactly the exposed members and exposed content equal to the signed model. Vacuity guard: the untampered package must verify.',
          'Forgeries needing more than one fault are out of scope (OpenPGP); map iteration orders for decoy variants are covered by 64 repetitions on the plain build; keys differ between runs (artefacts embed the public keys and package bytes).',
          'DESIGN.md §3 C16, agent-notes/C16.md'),
+ 'C07': ('model_checking',
+         'deviation-bounded choice-tree DFS over rendering deviations and byte delivery of model-generated deb822 documents; product enumeration of all short strings for the listing invariant',
+         'Documents are rendered from a model (fields with 4 first-line shapes and every sequence of 0..3 continuation lines over 8 line shapes; paragraphs of <= 3 fields; documents of <= 3 paragraphs) and the expected paragraphs are computed from the model, not parsed. Every execution with <= 1 (quick; 2 on a thinner base) / 2 (thorough) deviations among CRLF, key/value spacing, blank-line runs, missing final newline, a comment at every physical line boundary and byte delivery (one byte per Read, 7-byte chunks, a split at every offset) is read through 7 access paths (Next loop, All, Unmarshal into a slice, repeated Decode, Next x j then All) that must all return the model. The listing invariant (values for exactly the listed fields, each listed once) is checked on every string of length <= 7 / 9 over 8 symbols.',
+         'An empty first line contributes no logical line; whitespace-only separator lines are outside the well-formed class; longer documents are not explored.',
+         'DESIGN.md §3 C07'),
 }
 REASON_PENDING = 'check not built yet in this session (planned: see DESIGN.md §3); no claim is made until it exists'
 
